@@ -1,12 +1,16 @@
 """C14 extractor: sparql/src/value/_xsd_date_time.rs -> Gen/DateTimeFlags.lean
 
-Two facts about `XsdDateTime::new` select branches of the model (lean/SophiaModel/Model/OrderBy.lean
+Facts about `XsdDateTime::new` / `heterogeneous_cmp` that select branches of the model (lean/SophiaModel/Model/OrderBy.lean
 `parseDateTime`), so that the model follows the source and a regression flips it back:
 
   * dateTimeYearUnwrap     the year capture is parsed with `.parse().unwrap()` (an `i32` overflow panics)
                            rather than `.parse().ok()?` (such a lexical form is not a dateTime value);
   * dateTimeUnicodeDigits  the digit class of the regex is `\\d` (any Unicode Nd, whose captures then
-                           fail `parse::<u32>().unwrap()`) rather than `[0-9]`.
+                           fail `parse::<u32>().unwrap()`) rather than `[0-9]`;
+  * dateTimeOffsetUnreachable  `naive_to_fixed` maps every result of `and_local_timezone` other than
+                           `Single` to `unreachable!()` (it is `None` when `checked_sub_offset` leaves
+                           chrono's range: the comparison panics) rather than returning an `Option` that
+                           `heterogeneous_cmp` treats as "not beyond" (the exact answer).
 
 FAIL-CLOSED: the regex must have exactly the skeleton the model transcribes, all its digit classes
 must be of one kind, and the field-parsing statements must be the ones the model assumes; anything
@@ -21,6 +25,78 @@ FIELDS = [
     ("month", "mdhms[..2]"), ("day", "mdhms[3..5]"), ("hour", "mdhms[6..8]"),
     ("minute", "mdhms[9..11]"), ("second", "mdhms[12..14]"),
 ]
+
+
+def _norm(code):
+    """comments stripped, whitespace removed"""
+    code = re.sub(r"//[^\n]*", "", code)
+    return re.sub(r"\s+", "", code)
+
+
+# the two shapes of `heterogeneous_cmp` + `naive_to_fixed` the model knows (anything else: ExtractError)
+HET_UNREACHABLE = _norm("""
+fn heterogeneous_cmp(d1: &DateTime<FixedOffset>, d2: &NaiveDateTime) -> Option<Ordering> {
+    if d1 < &naive_to_fixed(d2, 14) {
+        Some(Ordering::Less)
+    } else if d1 > &naive_to_fixed(d2, -14) {
+        Some(Ordering::Greater)
+    } else {
+        None
+    }
+}
+fn naive_to_fixed(d: &NaiveDateTime, offset: i8) -> DateTime<FixedOffset> {
+    debug_assert!((-14..=14).contains(&offset));
+    let fixed_offset = FixedOffset::east_opt(i32::from(offset) * 3600).unwrap();
+    match d.and_local_timezone(fixed_offset) {
+        chrono::offset::LocalResult::Single(r) => r,
+        _ => unreachable!(),
+    }
+}
+""")
+HET_OPTION = _norm("""
+fn heterogeneous_cmp(d1: &DateTime<FixedOffset>, d2: &NaiveDateTime) -> Option<Ordering> {
+    if naive_to_fixed(d2, 14).is_some_and(|d2| d1 < &d2) {
+        Some(Ordering::Less)
+    } else if naive_to_fixed(d2, -14).is_some_and(|d2| d1 > &d2) {
+        Some(Ordering::Greater)
+    } else {
+        None
+    }
+}
+fn naive_to_fixed(d: &NaiveDateTime, offset: i8) -> Option<DateTime<FixedOffset>> {
+    debug_assert!((-14..=14).contains(&offset));
+    let fixed_offset = FixedOffset::east_opt(i32::from(offset) * 3600).unwrap();
+    d.and_local_timezone(fixed_offset).single()
+}
+""")
+PARTIAL_CMP = _norm("""
+    fn partial_cmp(&self, other: &Self) -> Option<Ordering> {
+        match (self, other) {
+            (XsdDateTime::Naive(d1), XsdDateTime::Naive(d2)) => d1.partial_cmp(d2),
+            (XsdDateTime::Naive(d1), XsdDateTime::Timezoned(d2)) => {
+                heterogeneous_cmp(d2, d1).map(Ordering::reverse)
+            }
+            (XsdDateTime::Timezoned(d1), XsdDateTime::Naive(d2)) => heterogeneous_cmp(d1, d2),
+            (XsdDateTime::Timezoned(d1), XsdDateTime::Timezoned(d2)) => d1.partial_cmp(d2),
+        }
+    }
+""")
+
+
+def offset_unreachable(text):
+    """which of the two known shapes `heterogeneous_cmp` / `naive_to_fixed` have"""
+    m = re.search(r"\nfn heterogeneous_cmp\(.*?\n}\n", text, re.S)
+    n = re.search(r"\nfn naive_to_fixed\(.*?\n}\n", text, re.S)
+    if not m or not n:
+        raise ExtractError("%s: `fn heterogeneous_cmp` / `fn naive_to_fixed` not found" % SRC)  # noqa: F821
+    got = _norm(m.group(0) + n.group(0))
+    if PARTIAL_CMP not in _norm(text):
+        raise ExtractError("%s: `PartialOrd for XsdDateTime` no longer has the transcribed shape" % SRC)  # noqa: F821
+    if got == HET_UNREACHABLE:
+        return True
+    if got == HET_OPTION:
+        return False
+    raise ExtractError("%s: `heterogeneous_cmp` / `naive_to_fixed` have neither of the two transcribed shapes" % SRC)  # noqa: F821
 
 
 def extract_datetime_flags(repo):
@@ -55,6 +131,10 @@ def extract_datetime_flags(repo):
                    "FixedOffset::east_opt(offset)?"):
         if needle not in body:
             raise ExtractError("%s: statement `%s` not found in XsdDateTime::new" % (SRC, needle))  # noqa: F821
+    for needle in (".checked_add_days(Days::new(1))?", ".and_local_timezone(FixedOffset::east_opt(offset)?)", ".single()?;"):
+        if needle not in body:
+            raise ExtractError("%s: statement `%s` not found in XsdDateTime::new" % (SRC, needle))  # noqa: F821
+    unreachable = offset_unreachable(text)
     b = lambda x: "true" if x else "false"  # noqa: E731
     out = [HEADER,  # noqa: F821
            "namespace SophiaModel.Gen\n\n",
@@ -64,8 +144,12 @@ def extract_datetime_flags(repo):
            "/-- the digit class of the dateTime regex is `\\\\d` (`true`: any Unicode decimal digit matches and the\n"
            "following integer parses are unwrapped) or `[0-9]` (`false`) -/\n",
            "def dateTimeUnicodeDigits : Bool := %s\n\n" % b(n_uni > 0),
+           "/-- `naive_to_fixed` ends in `_ => unreachable!()` (`true`: comparing a timezoned with a non-timezoned\n"
+           "dateTime panics when the latter +-14:00 leaves chrono's range) or returns an `Option` that\n"
+           "`heterogeneous_cmp` reads as \"not beyond\" (`false`) -/\n",
+           "def dateTimeOffsetUnreachable : Bool := %s\n\n" % b(unreachable),
            "end SophiaModel.Gen\n"]
-    return "".join(out), {"year_unwrap": year_unwrap, "unicode_digits": n_uni > 0}
+    return "".join(out), {"year_unwrap": year_unwrap, "unicode_digits": n_uni > 0, "offset_unreachable": unreachable}
 
 
 EXTRACTORS = {"datetime_flags": ("DateTimeFlags.lean", extract_datetime_flags)}
